@@ -30,3 +30,8 @@ ASSUMPTIONS = [
 
 # dimensions added in seeded rounds 6 and 7
 PROBES = list(PROBES) + ["merged-accumulator-fed-the-rest-of-the-stream", "chunks-handed-over-in-one-reused-buffer"]
+
+# dimensions added in seeded round 9
+PROBES = list(PROBES) + ["tree-merge:sum-of-sums", "tree-merge:never-pushed-accumulator", "tree-merge:3+parts", "tree-merge:4+parts"]
+RULE = RULE + (" Round 9: half of the scenarios with n >= 3 also split the stream over 3-8 accumulators and add them pairwise in a generated bracketing (left fold, right fold, "
+               "balanced tree, random; operands optionally flipped; 15% with one accumulator that never received a sample); the result is held against the same two-pass truth.")
